@@ -163,6 +163,7 @@ theorem FIe_ext (N : Nat) (links : List (Nat × List Tgt)) (hwf : TreeWF N links
       | many _ => exact he.elim
       | drop => exact he.elim
       | sames _ => exact he.elim
+      | mixed _ => exact he.elim
 
 theorem FIe_runExt (N : Nat) (links : List (Nat × List Tgt)) (hwf : TreeWF N links) (es : List Ext) :
     ∀ (g : G), (∀ e ∈ es, ExtT1 e) → FIe N links g → FIe N links (runExt g es) := by
